@@ -14,3 +14,8 @@ import BddVerif.Lemmas.AlgoEq2RenDriver
 #print axioms B.AlgoEq2Ren.Bdd_rename_variable_safe
 #print axioms B.AlgoEq2Ren.transfer_from_rel
 #print axioms B.AlgoEq2Ren.transfer_from_some_iff
+#print axioms B.Props.C17.set_num_vars_canonical
+#print axioms B.Props.C17.rename_variables_canonical
+#print axioms B.Props.C17.rename_variable_canonical
+#print axioms B.Props.C17.transfer_canonical
+#print axioms B.Props.C17.kept_canon
